@@ -50,6 +50,16 @@ def _case(check: Check, cfg, record=False):
         return None
 
     rig.run_sym(check, "structured", fn, claims, replay=rep, timeout_ms=10000, case_id=repr(sorted(cfg.items())), sample=cfg, record=record)
+    # ground companion (NOT solver-decided): the same oracle natively through sparse output and the narwhals materializer
+    for extra in ({"output": "sparse"}, {"output": "numpy", "materializer": "narwhals"}, {"output": "sparse", "materializer": "narwhals"}):
+        p = {"kind": "c07_config", "cfg": {**cfg, **extra}, "tag": None}
+        try:
+            bad = replays.run(p)
+        except Exception as e:  # the library raising on a legal structured build is a failed property, not a harness problem
+            bad = f"raises: {type(e).__name__}: {str(e)[:160]}"
+        check.obligation("structured.other_branches/ground", "refuted" if bad else "ground")
+        if bad:
+            check.violation(f"structured::{cfg['spec_id']}::{'narwhals,' if 'materializer' in extra else ''}{extra['output']}::{bad.split(':', 1)[0]}", bad, p)
 
 
 def run(check: Check) -> None:
@@ -64,7 +74,7 @@ def run(check: Check) -> None:
     )
     check.info["rule"] = "configuration = structured spec x null layout over (z, w, A) x index kind x output"
     check.bounds.update({"rows": cc.N, "specs": len(cc.SPECS), "null_sets_per_variable": len(cc.NULL_SETS)})
-    check.out_of_scope += ["nesting deeper than two levels", "multistage '[ ~ ]' formulas", "sparse output"]
+    check.out_of_scope += ["nesting deeper than two levels", "multistage '[ ~ ]' formulas", "sparse output and the narwhals materializer are NOT solver-decided: the same oracle runs natively on them at one generic point per configuration (group structured.other_branches/ground)"]
     cfgs = []
     layouts = list(itertools.product(range(len(cc.NULL_SETS)), repeat=3))
     for sid in range(len(cc.SPECS)):
